@@ -1,5 +1,5 @@
-(* Concrete inputs for the C15 examples and refutations (witnesses of findings.d/C15.json).  The `_after` trees are what
-   the real implementation (at /repo HEAD 6c8d927) left behind, extracted by harness/xq.py, ids aside. *)
+(* Concrete inputs for the C15 examples (witnesses of findings.d/C15.json, all repaired in /repo).  The `_after` trees
+   are what the real implementation (at /repo HEAD c9f24a8) left behind, extracted by harness/xq.py, ids aside. *)
 From Delb.Base Require Import PyStr.
 From Delb.Tree Require Import ATree ITree.
 From Delb.XPath Require Import Ast Nav Eval FetchCreate.
@@ -47,11 +47,11 @@ Definition f_late_tree : itree := (INode 1%N (PTag [] [114]%N []) []).
 Definition f_late_me : nsmap := [([], [])].
 Definition f_late_mc : nsmap := [([], [])].
 Definition f_late_expr : xpath_expr := [(LocationPath false [(LocationStep AxChild (NameMatchTest None [98]%N) []); (LocationStep AxChild (NameMatchTest (Some [112]%N) [97]%N) [])])].
-Definition f_late_after : itree := (INode 1%N (PTag [] [114]%N []) [(INode 2%N (PTag [] [98]%N []) [])]).
+Definition f_late_after : itree := (INode 1%N (PTag [] [114]%N []) []).
 (* f_empty : a  on  <r xmlns="d"><a/></r>  namespaces={} *)
 Definition f_empty_tree : itree := (INode 1%N (PTag [100]%N [114]%N [([0]%N, [], [100]%N)]) [(INode 2%N (PTag [100]%N [97]%N [([0]%N, [], [100]%N)]) [])]).
 Definition f_empty_me : nsmap := [].
-Definition f_empty_mc : nsmap := [([], [100]%N)].
+Definition f_empty_mc : nsmap := [].
 Definition f_empty_expr : xpath_expr := [(LocationPath false [(LocationStep AxChild (NameMatchTest None [97]%N) [])])].
-Definition f_empty_after : itree := (INode 1%N (PTag [100]%N [114]%N [([0]%N, [], [100]%N)]) [(INode 2%N (PTag [100]%N [97]%N [([0]%N, [], [100]%N)]) [])]).
-Definition f_empty_pos : npath := [0%nat; 0%nat].
+Definition f_empty_after : itree := (INode 1%N (PTag [100]%N [114]%N [([0]%N, [], [100]%N)]) [(INode 2%N (PTag [100]%N [97]%N [([0]%N, [], [100]%N)]) []); (INode 3%N (PTag [] [97]%N [([0]%N, [], [100]%N)]) [])]).
+Definition f_empty_pos : npath := [0%nat; 1%nat].
